@@ -36,6 +36,9 @@ def window_cfgs(results, nested=False):
         # an upper bound beyond every Q-value (the documented default is 4.3 MeV, users may give more): the effective window
         # ends at the available energy; the spectrum tables hold 4300 bins
         ws.append((r64(0.3 * e0), 12.0))
+        # a narrow window (narrower than a tenth of its upper bound) in the bulk of the sum spectra (at the top of the range
+        # the two-neutrino modes need ~1e4 candidates per event: measured, 5x the cost of the whole tier)
+        ws.append((r64(0.45 * e0), r64(0.49 * e0)))
         for (a, b) in ws:
             if b - a >= 1.0 / 64:
                 out.append('dbd %s %d %d %.10g %.10g' % (c['name'], c['level'], c['mode'], a, b))
@@ -45,6 +48,27 @@ def window_cfgs(results, nested=False):
             out.append('dbd %s %d %d %.10g -1' % (c['name'], c['level'], c['mode'], r64(0.5 * e0)))
             out.append('dbd %s %d %d -1 %.10g' % (c['name'], c['level'], c['mode'], r64(0.5 * e0)))
     return out
+
+
+def chain_cfgs(acc_cfg, wcfg, tier):
+    """re-initialisation chains on the same working objects (plumbing API, same bbpars, no reset): predecessor = the same
+    isotope's ground-state/no-window configuration (or another mode), then the configuration itself"""
+    chain = []
+    for i, c in enumerate(acc_cfg):
+        if tier == 'quick' and i % 6 != vlib.SEED % 6:
+            continue
+        if c['level'] > 0:
+            pre = 'dbd %s 0 %d -1 -1' % (c['name'], c['mode'] if any(a['name'] == c['name'] and a['level'] == 0 and a['mode'] == c['mode'] for a in acc_cfg) else 1)
+        else:
+            pre = 'dbd %s 0 %d -1 -1' % (c['name'], 4 if c['mode'] != 4 else 1)
+        if not any(a['name'] == pre.split()[1] and a['level'] == 0 and a['mode'] == int(pre.split()[3]) for a in acc_cfg):
+            continue
+        chain.append('dbd %s %d %d -1 -1 PRE %s' % (c['name'], c['level'], c['mode'], pre))
+    for i, w in enumerate(wcfg):
+        if i % 3 == 0:
+            t = w.split()
+            chain.append('%s PRE dbd %s %s %s -1 -1' % (w, t[1], t[2], t[3]))
+    return chain
 
 
 def run(tier, rep):
@@ -73,24 +97,8 @@ def run(tier, rep):
     if tier == 'quick':
         wcfg = [w for i, w in enumerate(wcfg) if i % 4 == vlib.SEED % 4]
     res2, d2 = dxlib.run_dx('plain', wcfg, 'c02w', 'A,B1', 'ref', phases=1, deadline=600)
-    # re-initialisation chains on the same working objects (plumbing API, same bbpars, no reset): predecessor = the same
-    # isotope's ground-state/no-window configuration (or another mode), then the configuration itself
-    chain = []
     acc_cfg = [r['config'] for r in accepted if 'crashed' not in r]
-    for i, c in enumerate(acc_cfg):
-        if tier == 'quick' and i % 6 != vlib.SEED % 6:
-            continue
-        if c['level'] > 0:
-            pre = 'dbd %s 0 %d -1 -1' % (c['name'], c['mode'] if any(a['name'] == c['name'] and a['level'] == 0 and a['mode'] == c['mode'] for a in acc_cfg) else 1)
-        else:
-            pre = 'dbd %s 0 %d -1 -1' % (c['name'], 4 if c['mode'] != 4 else 1)
-        if not any(a['name'] == pre.split()[1] and a['level'] == 0 and a['mode'] == int(pre.split()[3]) for a in acc_cfg):
-            continue
-        chain.append('dbd %s %d %d -1 -1 PRE %s' % (c['name'], c['level'], c['mode'], pre))
-    for i, w in enumerate(wcfg):
-        if i % 3 == 0:
-            t = w.split()
-            chain.append('%s PRE dbd %s %s %s -1 -1' % (w, t[1], t[2], t[3]))
+    chain = chain_cfgs(acc_cfg, wcfg, tier)
     res3, d3 = dxlib.run_dx('plain', chain, 'c02c', 'A' if tier == 'quick' else 'A,B1', 'ref', phases=1, deadline=600)
     rep.coverage['reinitialisation_chains'] = len(res3)
     c01.aggregate(rep, res + deep + res18 + res2 + res3, True, ('ref',), 'genbbsub',
